@@ -57,6 +57,13 @@ def hI2P : List String → String → Res
     some (showOpt toString (indexToPath h idx), verdictEq (toString (encPath h (nodeAt h idx.toNat))) impl)
   | _, _ => none
 
+/-- `tbl idxtopath` (dispatched here because the table belongs to bmtree) -/
+def hTblIdxToPath : List String → String → Res
+  | ["idxtopath"], impl =>
+    let m := String.intercalate ";" ((List.range 9).map fun k => showNats (idxToPathRow k))
+    some (m, verdictEq m impl)
+  | args, impl => hTbl args impl
+
 /-! C10 -/
 def bitsOfWidth (l v : Nat) : List Bool := (List.range l).map fun j => v.testBit (l - 1 - j)
 
